@@ -6,6 +6,7 @@ import (
 	"go/token"
 	"os"
 	"regexp"
+	"runtime/debug"
 	"sort"
 	"strings"
 	"sync"
@@ -55,10 +56,21 @@ func verifyFuncs(P *Prog, fns []*ssa.Function, opt solveOpts, par int) []*fnResu
 				defer func() {
 					if x := recover(); x != nil {
 						r.err = fmt.Errorf("generator panic in %s: %v", fn.String(), x)
+						if os.Getenv("GOCV_TRACE") != "" {
+							fmt.Fprintf(os.Stderr, "%s\n%s\n", r.err, debug.Stack())
+						}
 					}
 				}()
 				genMu.Lock()
 				ct := P.cs.Funcs[fn.String()]
+				if ct != nil && ct.Synth && fn.Origin() != nil && P.cs.Funcs[fn.Origin().String()] != nil {
+					ct = nil // a written contract on the generic origin wins over a synthesized sweep contract
+				}
+				if ct == nil && fn.Origin() != nil {
+					// an instance of a generic function or method without a contract of its own is governed by
+					// the contract written on the generic declaration (`func (c *perVM[T]) get`)
+					ct = P.cs.Funcs[fn.Origin().String()]
+				}
 				if ct == nil && len(opt.sweepFlags) > 0 {
 					// zero-annotation sweep: a function without a contract gets the property's sweep flags only
 					pk := ""
